@@ -4,6 +4,9 @@ package main
 
 import (
 	"bufio"
+	"bytes"
+	"net/url"
+	"strconv"
 	"encoding/hex"
 	"encoding/json"
 	"fmt"
@@ -285,10 +288,18 @@ func init() {
 			var obs []string
 			var margs []string
 			seenCreate := 0
+			lib := map[string]*wire.File{} // what direct library calls on the same bytes produce
+			faithful := "same"
 			for i, op := range ops {
 				margs = append(margs, op.margs...)
 				r := rs[i]
 				body, _ := hex.DecodeString(r.Body)
+				if os.Getenv("VERIF_DEBUG") == fmt.Sprint(h) {
+					fmt.Fprintf(os.Stderr, "h%d #%d %s id=%s ct=%s -> %d new=%s\n", h, i, op.Op, op.ID, op.CT, r.Status, r.NewID)
+				}
+				if d := libraryVerdict(lib, op, r, body, created[:min(seenCreate, len(created))]); d != "" && faithful == "same" {
+					faithful = fmt.Sprintf("differ:request %d (%s): %s", i, op.Op, d)
+				}
 				s := fmt.Sprint(r.Status)
 				switch {
 				case op.Op == "create" && r.Status == 201:
@@ -330,10 +341,183 @@ func init() {
 				obs = append(obs, s)
 			}
 			o.Case("http:seq", strings.Join(obs, "|"), margs...)
+			o.Case("prop:http-faithful", faithful, margs...)
 			o.Case("prop:http-status-documented", "same", fmt.Sprint(h))
 			o.Case("prop:http-log-isolation", "same", fmt.Sprint(h))
 			o.Case("prop:http-error-body-json", "same", fmt.Sprint(h))
 		}
 		_ = reflect.TypeOf
 	}
+}
+
+// libraryVerdict performs the request's work by direct library calls on the same bytes, compares
+// with the HTTP response and keeps lib (ID -> file) up to date. "" = the endpoint is a faithful wrapper.
+func libraryVerdict(lib map[string]*wire.File, op httpOp, r httpRes, body []byte, created []string) string {
+	id := op.ID
+	if strings.HasPrefix(id, "$") {
+		var k int
+		fmt.Sscanf(id[1:], "%d", &k)
+		if k < len(created) {
+			id = created[k]
+		} else {
+			id = "unknown-" + id[1:]
+		}
+	}
+	reqBody, _ := hex.DecodeString(op.Body)
+	q, _ := url.ParseQuery(op.Query)
+	same := func(a, b *wire.File) bool { return msgResult(*a) == msgResult(*b) }
+	switch op.Op {
+	case "create":
+		var f *wire.File
+		if strings.Contains(op.CT, "application/json") {
+			f = wire.NewFile()
+			if err := json.NewDecoder(bytes.NewReader(reqBody)).Decode(f); err != nil {
+				f = nil
+			} else if f.Validate() != nil {
+				f = nil
+			}
+		} else {
+			var opts *wire.ValidateOpts
+			for _, name := range []string{"skipMandatoryIMAD", "allowMissingSenderSupplied"} {
+				if set, _ := strconv.ParseBool(q.Get(name)); set {
+					if opts == nil {
+						opts = &wire.ValidateOpts{}
+					}
+					if name == "skipMandatoryIMAD" {
+						opts.SkipMandatoryIMAD = true
+					} else {
+						opts.AllowMissingSenderSupplied = true
+					}
+				}
+			}
+			g, err := wire.NewReader(bytes.NewReader(reqBody)).ReadWithOpts(opts)
+			if err == nil {
+				f = &g
+			}
+		}
+		if f == nil {
+			if r.Status != 400 {
+				return fmt.Sprintf("the library rejects the body but the endpoint answered %d", r.Status)
+			}
+			return ""
+		}
+		if r.Status != 201 {
+			return fmt.Sprintf("the library accepts the body but the endpoint answered %d", r.Status)
+		}
+		got, err := wire.FileFromJSON(body)
+		if err != nil || got == nil {
+			return "201 body is not a file"
+		}
+		if !same(got, f) {
+			return "201 body differs from the message the library produces"
+		}
+		f.ID = got.ID
+		lib[got.ID] = f
+	case "get":
+		f := lib[id]
+		if f == nil {
+			if r.Status != 404 {
+				return fmt.Sprintf("unknown id answered %d", r.Status)
+			}
+			return ""
+		}
+		got, err := wire.FileFromJSON(body)
+		if r.Status != 200 || err != nil || got == nil || !same(got, f) {
+			if os.Getenv("VERIF_DEBUG") != "" {
+				fmt.Fprintf(os.Stderr, "GET id=%s status=%d err=%v body=%s\n", id, r.Status, err, short(string(body)))
+			}
+			return "get does not return the stored file"
+		}
+	case "contents":
+		f := lib[id]
+		if f == nil {
+			if r.Status != 404 {
+				return fmt.Sprintf("unknown id answered %d", r.Status)
+			}
+			return ""
+		}
+		variable := q.Get("format") == "variable"
+		nl := "\n"
+		if v := q.Get("newline"); v != "" {
+			b, err := strconv.ParseBool(v)
+			if err != nil {
+				if r.Status != 400 {
+					return fmt.Sprintf("unparsable newline parameter answered %d", r.Status)
+				}
+				return ""
+			}
+			if !b {
+				nl = ""
+			}
+		}
+		var buf bytes.Buffer
+		if err := wire.NewWriter(&buf, wire.VariableLengthFields(variable), wire.NewlineCharacter(nl)).Write(f); err != nil {
+			if r.Status != 400 {
+				return fmt.Sprintf("the library writer refuses the file but the endpoint answered %d", r.Status)
+			}
+			return ""
+		}
+		if r.Status != 200 || !bytes.Equal(buf.Bytes(), body) {
+			return "contents differ from the library writer's output for the requested format and newline parameters"
+		}
+	case "validate":
+		f := lib[id]
+		if f == nil {
+			if r.Status != 404 {
+				return fmt.Sprintf("unknown id answered %d", r.Status)
+			}
+			return ""
+		}
+		want := 200
+		if f.Validate() != nil {
+			want = 400
+		}
+		if r.Status != want {
+			return fmt.Sprintf("library validation says %d, the endpoint answered %d", want, r.Status)
+		}
+	case "add":
+		var req wire.FEDWireMessage
+		if err := json.NewDecoder(bytes.NewReader(reqBody)).Decode(&req); err != nil {
+			if r.Status != 400 {
+				return fmt.Sprintf("undecodable message answered %d", r.Status)
+			}
+			return ""
+		}
+		f := lib[id]
+		if f == nil {
+			if r.Status != 404 {
+				return fmt.Sprintf("unknown id answered %d", r.Status)
+			}
+			return ""
+		}
+		g := *f
+		g.FEDWireMessage = g.AddFEDWireMessage(req)
+		if g.Validate() != nil {
+			if r.Status != 400 {
+				return fmt.Sprintf("the library rejects the resulting file but the endpoint answered %d", r.Status)
+			}
+			return ""
+		}
+		got, err := wire.FileFromJSON(body)
+		if r.Status != 200 || err != nil || got == nil || !same(got, &g) {
+			return "add-message does not answer with the file the library produces"
+		}
+		lib[id] = &g
+	case "delete":
+		delete(lib, id)
+	}
+	// C17: every stored file is valid and its contents re-readable
+	for k, f := range lib {
+		if f.Validate() != nil {
+			return "stored file " + k + " is invalid"
+		}
+		var buf bytes.Buffer
+		if err := wire.NewWriter(&buf).Write(f); err != nil {
+			return "stored file " + k + " cannot be written"
+		}
+		if _, err := wire.NewReader(bytes.NewReader(buf.Bytes())).ReadWithOpts(f.FEDWireMessage.ValidateOptions); err != nil {
+			return "contents of stored file " + k + " cannot be read back"
+		}
+	}
+	return ""
 }
